@@ -26,7 +26,7 @@ pub enum Op {
     Start,
     Yield(&'static str),
     Acquire(LockId, Mode),
-    Flock { ino: u64, fd: i32 },
+    Flock { ino: u64, fd: i32, shared: bool },
     Io(Kind),
     Await(usize),
 }
@@ -74,7 +74,8 @@ struct State {
     threads: Vec<ThreadState>,
     running: Option<usize>,
     locks: HashMap<usize, LockState>,
-    flocks: HashMap<u64, (usize, i32)>,
+    /// holders of the advisory lock per inode: (thread, descriptor, shared)
+    flocks: HashMap<u64, Vec<(usize, i32, bool)>>,
     flags: Vec<bool>,
     prefix: Vec<u8>,
     points: Vec<PointRec>,
@@ -84,6 +85,9 @@ struct State {
     policy: RwPolicy,
     active: bool,
     max_points: usize,
+    /// how many blocking lock requests may still be answered with EINTR in this execution
+    eintr_budget: usize,
+    interrupted: Vec<bool>,
 }
 
 pub struct Sched {
@@ -115,21 +119,30 @@ impl Hooks for SchedHooks {
 }
 
 impl IoSched for SchedHooks {
-    fn io_point(&self, kind: Kind, fd: i32, ino: u64, arg: i64) {
+    fn io_point(&self, kind: Kind, fd: i32, ino: u64, arg: i64) -> Option<i32> {
         if let Some(t) = TID.with(|c| c.get()) {
+            let locking = arg & (libc::LOCK_EX as i64) != 0 || arg & (libc::LOCK_SH as i64) != 0;
+            let nonblocking = arg & (libc::LOCK_NB as i64) != 0;
             let op = match kind {
-                Kind::Flock if arg & (libc::LOCK_EX as i64) != 0 || arg & (libc::LOCK_SH as i64) != 0 => Op::Flock { ino, fd },
-                Kind::Lseek => return, // seek + write form one step: the write is the point
+                // a blocking lock request is modelled by the scheduler; a non-blocking one is an
+                // ordinary call whose real answer (EWOULDBLOCK or success) is taken as it comes
+                Kind::Flock if locking && !nonblocking => Op::Flock { ino, fd, shared: arg & (libc::LOCK_SH as i64) != 0 },
+                Kind::Lseek => return None, // seek + write form one step: the write is the point
                 k => Op::Io(k),
             };
             sched().point(t, op);
+            if sched().take_interrupt(t) {
+                return Some(libc::EINTR);
+            }
         }
+        None
     }
-    fn io_done(&self, kind: Kind, fd: i32, ino: u64, arg: i64, _ok: bool) {
+    fn io_done(&self, kind: Kind, fd: i32, ino: u64, arg: i64, ok: bool) {
         if let Some(t) = TID.with(|c| c.get()) {
             match kind {
                 Kind::Close => sched().flock_released(t, ino, fd),
                 Kind::Flock if arg & (libc::LOCK_UN as i64) != 0 => sched().flock_released(t, ino, fd),
+                Kind::Flock if ok && arg & (libc::LOCK_NB as i64) != 0 => sched().flock_acquired(t, ino, fd, arg & (libc::LOCK_SH as i64) != 0),
                 _ => {}
             }
         }
@@ -141,12 +154,20 @@ static SCHED_CELL: std::sync::OnceLock<Sched> = std::sync::OnceLock::new();
 
 pub fn sched() -> &'static Sched {
     SCHED_CELL.get_or_init(|| Sched {
-        state: Mutex::new(State { threads: Vec::new(), running: None, locks: HashMap::new(), flocks: HashMap::new(), flags: Vec::new(), prefix: Vec::new(), points: Vec::new(), aborted: false, deadlock: None, diverged: None, policy: RwPolicy::PolicyFree, active: false, max_points: 20_000 }),
+        state: Mutex::new(State { threads: Vec::new(), running: None, locks: HashMap::new(), flocks: HashMap::new(), flags: Vec::new(), prefix: Vec::new(), points: Vec::new(), aborted: false, deadlock: None, diverged: None, policy: RwPolicy::PolicyFree, active: false, max_points: 20_000, eintr_budget: 0, interrupted: Vec::new() }),
         cv: Condvar::new(),
     })
 }
 
 impl State {
+    /// may (thread, fd) take the lock on `ino` in the given mode without waiting?
+    fn flock_free(&self, ino: u64, t: usize, fd: i32, shared: bool) -> bool {
+        match self.flocks.get(&ino) {
+            None => true,
+            Some(holders) => holders.iter().all(|h| (h.0 == t && h.1 == fd) || (shared && h.2)),
+        }
+    }
+
     fn enabled(&self, t: usize) -> bool {
         let th = &self.threads[t];
         if th.finished || !th.registered {
@@ -156,7 +177,8 @@ impl State {
             None => false,
             Some(Op::Start) | Some(Op::Yield(_)) | Some(Op::Io(_)) => true,
             Some(Op::Await(i)) => self.flags.get(*i).copied().unwrap_or(false),
-            Some(Op::Flock { ino, .. }) => !self.flocks.contains_key(ino),
+            // a blocked lock request can also be "enabled" by a signal interrupting it
+            Some(Op::Flock { ino, fd, shared }) => self.flock_free(*ino, t, *fd, *shared) || self.eintr_budget > 0,
             Some(Op::Acquire(l, m)) => {
                 let ls = self.locks.get(&l.addr);
                 match m {
@@ -196,8 +218,19 @@ impl State {
                     Mode::Read => ls.readers.push(t),
                 }
             }
-            Op::Flock { ino, fd } => {
-                self.flocks.insert(*ino, (t, *fd));
+            Op::Flock { ino, fd, shared } => {
+                if !self.flock_free(*ino, t, *fd, *shared) {
+                    // only reachable through the interruption budget
+                    self.eintr_budget -= 1;
+                    if self.interrupted.len() <= t {
+                        self.interrupted.resize(t + 1, false);
+                    }
+                    self.interrupted[t] = true;
+                } else {
+                    let v = self.flocks.entry(*ino).or_default();
+                    v.retain(|h| !(h.0 == t && h.1 == *fd));
+                    v.push((t, *fd, *shared));
+                }
             }
             _ => {}
         }
@@ -235,8 +268,10 @@ impl State {
                     desc.push_str(&format!("lock@{:x}: mutex holder {:?} writer {:?} readers {:?}; ", a & 0xffff, l.mutex_holder, l.writer, l.readers));
                 }
             }
-            for (ino, h) in &self.flocks {
-                desc.push_str(&format!("flock ino {} held by thread {}; ", ino, h.0));
+            for (ino, hs) in &self.flocks {
+                for h in hs {
+                    desc.push_str(&format!("flock ino {} held by thread {} ({}); ", ino, h.0, if h.2 { "shared" } else { "exclusive" }));
+                }
             }
             self.deadlock = Some(desc);
             self.aborted = true;
@@ -313,13 +348,38 @@ impl Sched {
         }
     }
 
+    fn flock_acquired(&self, t: usize, ino: u64, fd: i32, shared: bool) {
+        let mut st = self.state.lock().unwrap();
+        if st.active {
+            let v = st.flocks.entry(ino).or_default();
+            v.retain(|h| !(h.0 == t && h.1 == fd));
+            v.push((t, fd, shared));
+        }
+    }
+
+    fn take_interrupt(&self, t: usize) -> bool {
+        let mut st = self.state.lock().unwrap();
+        if st.active && st.interrupted.get(t).copied().unwrap_or(false) {
+            st.interrupted[t] = false;
+            return true;
+        }
+        false
+    }
+
+    pub fn set_eintr_budget(&self, n: usize) {
+        self.state.lock().unwrap().eintr_budget = n;
+    }
+
     fn flock_released(&self, t: usize, ino: u64, fd: i32) {
         let mut st = self.state.lock().unwrap();
         if !st.active {
             return;
         }
-        if st.flocks.get(&ino) == Some(&(t, fd)) {
-            st.flocks.remove(&ino);
+        if let Some(v) = st.flocks.get_mut(&ino) {
+            v.retain(|h| !(h.0 == t && h.1 == fd));
+            if v.is_empty() {
+                st.flocks.remove(&ino);
+            }
         }
     }
 
@@ -377,6 +437,7 @@ pub fn run_execution(prefix: &[u8], bodies: Vec<Body>, policy: RwPolicy, io_poin
         st.deadlock = None;
         st.diverged = None;
         st.policy = policy;
+        st.interrupted = vec![false; n];
         st.active = true;
     }
     let panics: Arc<Mutex<Vec<(usize, String)>>> = Arc::new(Mutex::new(vec![]));
@@ -431,7 +492,10 @@ pub fn run_execution(prefix: &[u8], bodies: Vec<Body>, policy: RwPolicy, io_poin
                         }
                         l.readers.retain(|x| *x != tid);
                     }
-                    st.flocks.retain(|_, h| h.0 != tid);
+                    for v in st.flocks.values_mut() {
+                        v.retain(|h| h.0 != tid);
+                    }
+                    st.flocks.retain(|_, v| !v.is_empty());
                     if !st.aborted {
                         st.schedule_next(None);
                     }
